@@ -29,6 +29,14 @@ PERTURB = {
     "lbyl": {"enabled": False}, "performance": {"enabled": False}, "unwrap-abuse": {"allow_in_tests": False},
     "dry": {"enabled": True, "min_duplicate_lines": 2}, "stringly-typed": {"enabled": False},
 }
+# values of the wrong type in *another* linter's section (a quoted number, a float, null, a per-language override): that linter
+# may misbehave, command X must not notice (values the owning linter documents as invalid, e.g. a non-positive limit, end the
+# whole run with exit 2: that is C05's subject and is not used here)
+MISTYPED = [("nesting", {"max_nesting_depth": "2"}), ("nesting", {"max_nesting_depth": None}), ("nesting", {"max_nesting_depth": 2.5}),
+            ("nesting", {"typescript": {"max_nesting_depth": "2"}, "rust": {"max_nesting_depth": "2"}, "python": {"max_nesting_depth": "2"}}),
+            ("srp", {"max_methods": "3"}), ("srp", {"python": {"max_loc": "10"}, "typescript": {"max_loc": "10"}, "rust": {"max_loc": "10"}}),
+            ("magic-numbers", {"max_small_integer": "7"}), ("print-statements", {"allow_in_scripts": "yes"}),
+            ("method-property", {"max_body_statements": "3"}), ("stateless-class", {"min_methods": "2"}), ("dry", {"enabled": True, "min_duplicate_lines": "4"})]
 SECTION_OF = {"nesting": "nesting", "srp": "srp", "magic-numbers": "magic-numbers", "print-statements": "print-statements",
               "improper-logging": "print-statements", "method-property": "method-property", "stateless-class": "stateless-class",
               "lbyl": "lbyl", "perf": "performance", "string-concat-loop": "performance", "regex-in-loop": "performance",
@@ -72,6 +80,32 @@ def impl_case(args):
         orch = Orchestrator(project_root=proj)
         allv = orch.lint_files([proj / name])
         out["all"] = sorted([v.rule_id, v.line, v.column, v.message] for v in allv)
+    except Exception as exc:  # noqa: BLE001
+        out["errors"].append(f"{type(exc).__name__}: {exc}")
+    finally:
+        shutil.rmtree(proj, ignore_errors=True)
+    return out
+
+
+def pair_case(args):
+    """two copies of one file in a project with the cross-file linters switched on: duplicate-code and stringly-typed findings
+    are source analysis too and must respect the file type"""
+    idx, ext, ck, root = args
+    proj = Path(root) / f"pa{idx}"
+    proj.mkdir(parents=True)
+    out = {"errors": [], "by_cmd": {}}
+    try:
+        for tag in ("a", "b"):
+            name, text, _suffix, _first = file_for(ext, ck, f"{idx}{tag}")
+            (proj / name).write_text(text)
+        (proj / ".thailint.yaml").write_text("dry:\n  enabled: true\n  min_duplicate_lines: 3\nstringly-typed:\n  enabled: true\n")
+        for c in ("dry", "stringly-typed"):
+            code, stdout = core.run_cli(["--project-root", str(proj), c, "--format", "json", "."], cwd=proj)
+            vs = core.violations_json(stdout)
+            if vs is None:
+                out["errors"].append(f"{c}: exit {code}: {stdout[:200]}")
+                continue
+            out["by_cmd"][c] = {"exit": code, "vs": sorted([v["rule_id"], Path(v["file_path"]).name, v["line"]] for v in vs)}
     except Exception as exc:  # noqa: BLE001
         out["errors"].append(f"{type(exc).__name__}: {exc}")
     finally:
@@ -128,11 +162,11 @@ def run(tier: str, seed: int, st: core.ProofStatus) -> core.Result:
             idx += 1
     # perturbation runs: native content only
     base_index = {(m["ext"], m["content"]): i for i, m in enumerate(meta)}
-    pert = [(sec, val) for sec, val in PERTURB.items()]
+    pert = [(sec, val) for sec, val in PERTURB.items()] + MISTYPED
     combos = [(e, ck) for e, ck in ((".py", "py"), (".ts", "ts"), (".rs", "rs"))]
     chosen = [(e, ck, sec, val) for e, ck in combos for sec, val in pert]
     if tier == "quick":
-        chosen = rng.sample(chosen, 12)
+        chosen = rng.sample([c for c in chosen if (c[2], c[3]) not in MISTYPED], 10) + rng.sample([c for c in chosen if (c[2], c[3]) in MISTYPED], 12)
     for e, ck, sec, val in chosen:
         name, text, suffix, first = file_for(e, ck, idx)
         work.append((idx, name, text, cmds, {sec: val}, str(root)))
@@ -149,9 +183,33 @@ def run(tier: str, seed: int, st: core.ProofStatus) -> core.Result:
     try:
         if True:
             impls = core.pmap(impl_case, work, procs=16, chunksize=1)
+        pair_work = [(k, ext, ck, str(root)) for k, (ext, ck) in enumerate((e, c) for e in EXTS for c in ("py", "ts", "rs"))]
+        pairs = core.pmap(pair_case, pair_work, procs=16)
         multis = core.pmap(multi_case, [(k, o, ["nesting", "magic-numbers", "print-statements"], str(root)) for k, o in enumerate(orders)], procs=16)
     finally:
         shutil.rmtree(root, ignore_errors=True)
+    for (k, ext, ck, _r), pa in zip(pair_work, pairs):
+        res.evaluations += 1
+        res.bump("pair_runs (cross-file linters on)")
+        _n, _t, suffix, first = file_for(ext, ck, k)
+        det = drv.call({"prop": PROP, "op": "detect", "suffix": suffix, "nonEmpty": True, "firstLine": first})
+        if pa["errors"]:
+            res.disagreements.append(core.Disagreement(case={"ext": ext, "content": ck, "pair": True}, impl=pa["errors"], model=det, spec=None, property_fails=True,
+                                                       note=pa["errors"][0][:500]))
+            continue
+        for c, o in pa["by_cmd"].items():
+            if o["vs"] and (det["language"] == "unknown" or not det["mayReport"].get(c, True)):
+                res.disagreements.append(core.Disagreement(
+                    case={"ext": ext, "content": ck, "pair": True, "cmd": c}, impl=o["vs"][:4], model=det, spec=None, property_fails=True,
+                    note=f"two identical files with suffix {ext!r} ({ck} content), detected as {det['language']}: `thailint {c}` reported {o['vs'][:2]}"))
+            if o["vs"]:
+                res.nontrivial.add(core.canon(["pair", ext, ck, c]))
+            if (1 if o["vs"] else 0) != o["exit"]:
+                res.disagreements.append(core.Disagreement(case={"ext": ext, "content": ck, "pair": True, "cmd": c}, impl=o, model=None, spec=None, property_fails=True,
+                                                           note=f"`thailint {c}` exit {o['exit']} with {len(o['vs'])} violations"))
+        if ext == ".py" and ck == "py" and not pa["by_cmd"].get("dry", {}).get("vs"):
+            res.disagreements.append(core.Disagreement(case={"ext": ext, "content": ck, "pair": True}, impl=pa["by_cmd"], model=det, spec=None, property_fails=True,
+                                                       note="two identical Python files and dry enabled: no duplicate-code finding (the pair probe is blind)"))
     for o, mu in zip(orders, multis):
         res.evaluations += 1
         res.bump("multi_file_runs")
